@@ -394,7 +394,7 @@ def gen(item, rng, tier):
             slots.append({'t': 'any', 'w': rand_dp32(rng), 'name': 'dp32'})
             dirty = True              # r0-r5 may hold anything from here on: later 'register must change' expectations are off
         elif t == 'multi':
-            kindm = rng.choice(['stm', 'ldm', 'ldrd', 'strd', 'nop', 'nopw', 'msr_x', 'msr_x', 'hi16', 'hi16', 'adr', 'ldrex', 'misc32'] +
+            kindm = rng.choice(['stm', 'ldm', 'ldrd', 'strd', 'nop', 'nopw', 'msr_x', 'msr_x', 'hi16', 'hi16', 'adr', 'ldrex', 'misc32', 'wfe'] +
                                ([] if sp_loaded else ['push', 'pop', 'push', 'pop', 'popw', 'spadj']))
             if kindm == 'msr_x' and e_main:
                 kindm = 'nop'                         # (MSR CPSR_x from a pointer register would clear the E bit the program runs with)
@@ -437,6 +437,10 @@ def gen(item, rng, tier):
             elif kindm in ('ldrd', 'strd'):
                 ra, rb = rng.sample(range(5), 2)
                 w = T.ldstd(kindm == 'ldrd', ra, rb, 6, rng.randrange(0, 16))
+            elif kindm == 'wfe':
+                # WFE with the Event Register clear: the processor really waits in the middle of the block (the board lets it sleep) until an event
+                # - the SEV scheduled behind the program, or an interrupt - wakes it; the instruction occupies one slot, however long the wait
+                w = rng.choice([0xBF20, 0xF3AF8002])
             else:
                 w = T.NOP if kindm == 'nop' else T.NOP_W
             slots.append({'t': 'any', 'w': w, 'name': kindm})
@@ -563,6 +567,11 @@ def gen(item, rng, tier):
     meta = {'thumb': 1, 'te': te, 'bo': bo, 'e': e_main, 'mode': mode, 'returns': rets, 'main_lo': G.CODE, 'main_hi': G.CODE + len(code), 'handlers': {k: list(v) for k, v in hinfo.items()},
             'firstcond': f, 'mask': mask, 'nzcv': nzcv, 'kind': kind, 'pos': pos, 'slots': slots, 'slot_addrs': addrs, 'special': special,
             'it_addr': G.CODE + pro_len, 'epi_addr': (a + (2 if slots[-1]['t'] == 'b' else 0) + 2) if epilogue else None, 'pro_len': pro_len}
+    if any(s_.get('name') == 'wfe' for s_ in slots):
+        events.append({'tick': len(words) + 20 + rng.randrange(0, 8), 'core': 0, 'kind': 'sev'})
+    if rng.random() < 0.1:
+        events.append({'tick': rng.randrange(0, len(words) + 4), 'core': 0, 'kind': 'regswap'})          # register file replaced by a deep copy of itself
+        events.sort(key=lambda e: e['tick'])
     return {'scenario': 'it_block', 'cores': [core], 'meta': meta, 'events': events, 'max_ticks': len(words) + 3 * (hl + 10) + 40}
 
 
@@ -713,6 +722,12 @@ def run_one(case, ideal):
         if meta['special'] is not None and meta['slots'][meta['special']]['t'] in ('svc', 'udf'):
             off = meta['slot_addrs'][meta['special']] - G.CODE
             code[off:off + 2] = emit([T.NOP], True)
+        for j_, s_ in enumerate(meta['slots']):
+            if s_.get('name') == 'wfe':
+                # (a wait has no architectural effect on the program: the ideal run does not wait)
+                off = meta['slot_addrs'][j_] - G.CODE
+                nop = emit([T.NOP if s_['w'] <= 0xFFFF else T.NOP_W], True)
+                code[off:off + len(nop)] = nop
         devs[1] = dict(devs[1], data={'0': bytes(code).hex()})
         core['devices'] = devs
         regs = dict(core['regs'])
